@@ -11,22 +11,24 @@ from ..report import Ctx
 from .common import ALGORITHM, BUDGET, EVALUATOR, TRACKER
 
 LEVEL_TEXT = (
-    "(R1) every SynthesisAlgorithm.search has exactly one loop, its test is 'not self.is_done()' and nothing "
-    "else, the body has no break/return and does not consult the budget again, and is_done delegates to "
-    "budget.is_done(tracker); (R2) finite-model interpretation of every search(): with a budget that answers 'not"
-    " done' three times and then 'done', between two consecutive checks a non-empty batch of individuals created "
-    "since the previous check (from a created / mutated genotype, or yielded by the step / initializer for GP and"
-    " wrapped in a tracked Population) reaches tracker.evaluate, none twice, and nothing is evaluated after "
-    "'done'; (R3) every SearchBudget.is_done is interpreted against a scripted tracker: EvaluationBudget is "
-    "'evaluations >= limit' (9, 10, 11, 25 against 10), AnyOf is the disjunction with both members consulted on "
-    "the given tracker (truth table), TargetFitness is false while there is no best and compares the best "
-    "individual's first fitness component with the target within the tolerance (minimised problem, where the "
-    "aggregate differs); (R4) trackers / evaluators / budgets keep no state shared between searches; (R5) the "
-    "tracked population wrapper of the GP search (a constructor taking an iterable of individuals and a tracker) "
-    "is interpreted on [already evaluated, not evaluated]: every individual is handed to the tracker, because "
-    "steps evaluate through the raw evaluator and the tracker's best - what a target-fitness budget reads - is "
-    "updated only inside tracker.evaluate. Termination for arbitrary user step compositions is not decidable and "
-    "not claimed."
+    "(R1) every SynthesisAlgorithm.search has exactly one search loop - 'while not self.is_done()' or the "
+    "equivalent 'while True: if self.is_done(): break' guard at the top of the body - with no other exit, the "
+    "body does not consult the budget again, and is_done delegates to budget.is_done(tracker); inner loops that "
+    "only scan a finished batch are not search loops; (R2) finite-model interpretation of every search(): with a "
+    "budget that answers 'not done' three times and then 'done', between two consecutive checks a non-empty batch"
+    " of individuals created since the previous check (from a created / mutated genotype, or yielded by the step "
+    "/ initializer for GP and wrapped in a tracked Population) reaches tracker.evaluate, none twice, and nothing "
+    "is evaluated after 'done'; (R3) every SearchBudget.is_done is interpreted against a scripted tracker: "
+    "EvaluationBudget is 'evaluations >= limit' (9, 10, 11, 25 against 10), AnyOf is the disjunction with both "
+    "members consulted on the given tracker (truth table), TargetFitness is false while there is no best and "
+    "compares the best individual's first fitness component with the target within an absolute tolerance (targets"
+    " 0, 5 and 1000 on a minimised problem, where the aggregate differs and a relative tolerance would give other"
+    " answers); (R4) trackers / evaluators / budgets keep no state shared between searches; (R5) the tracked "
+    "population wrapper of the GP search (a constructor taking an iterable of individuals and a tracker) - "
+    "wherever it lives and however it is built - is interpreted on [already evaluated, not evaluated]: every "
+    "individual is handed to the tracker, because steps evaluate through the raw evaluator and the tracker's best"
+    " - what a target-fitness budget reads - is updated only inside tracker.evaluate. Termination for arbitrary "
+    "user step compositions is not decidable and not claimed."
 )
 
 
